@@ -180,7 +180,7 @@ fn impl_iden_for_unit_struct(
             #prepare
 
             fn unquoted(&self, s: &mut dyn ::std::fmt::Write) {
-                write!(s, #table_name).unwrap();
+                write!(s, "{}", #table_name).unwrap();
             }
         }
     }
